@@ -47,6 +47,10 @@ LEVEL.update({
  "C19":("only the epoch arithmetic: DateTimeToEpoch (both units) and EpochToDateTimeRFC3339 (SECOND) on the real code and the real time package's integer code, for every instant of years 1..9999 under 64-bit wrap-around semantics; counterexamples are replayed natively through the real parser and formatter",
         "parsing, layouts, formatting and IANA zones are cut away (outside); the MILLISECOND inverse direction is not registered because the solver does not finish its unsat direction"),
 })
+LEVEL.update({
+ "C20":("pool hygiene and _node freshness on the real javascript.go code: two consecutive calls over every subset of argument names (incl. a built-in's name), first script returning or throwing, the second call getting the pooled VM: the globals visible to the second script are exactly the built-ins plus its own arguments; _node of a node built from recycled memory; the stale _node of a changing ancestor is the recorded finding F5",
+        "goja is modelled by its global-variable table (the JS engine itself — value mapping, NaN/null rejection, exceptions — is outside); natively the real goja runs the equivalent script"),
+})
 REASON_NOT_YET="check under construction in this session (see DESIGN.md §6); not claimed yet"
 m={
  "version":1,
